@@ -1,0 +1,33 @@
+//go:build verif
+
+package snap
+
+import (
+	"github.com/pdok/texel/intgeom"
+)
+
+// Exports for the verification harness in /verif (build tag "verif" only).
+
+func VerifKmpDeduplicate(ring [][2]float64) [][2]float64 {
+	return kmpDeduplicate(ring)
+}
+
+func VerifSplitRing(ring [][2]float64, isOuter bool, hitMultiple map[intgeom.Point][]int, ringIdx int) (outerRings, innerRings, pointsAndLines [][][2]float64) {
+	return splitRing(ring, isOuter, hitMultiple, ringIdx)
+}
+
+func VerifCleanupNewRing(newRing [][2]float64, isOuter bool, hitMultiple map[intgeom.Point][]int, ringIdx int) (outerRings, innerRings, pointsAndLines [][][2]float64) {
+	return cleanupNewRing(newRing, isOuter, hitMultiple, ringIdx)
+}
+
+func VerifDedupeInnersOuters(outers [][][2]float64, inners [][][2]float64) ([][][2]float64, [][][2]float64) {
+	return dedupeInnersOuters(outers, inners)
+}
+
+func VerifMatchInnersToPolygons(polygons [][][][2]float64, innerRings [][][2]float64, hasInners bool) [][][][2]float64 {
+	return matchInnersToPolygons(polygons, innerRings, hasInners)
+}
+
+func VerifKmpSearchAll(corpus, find [][2]float64) []int {
+	return kmpSearchAll(corpus, find)
+}
